@@ -21,7 +21,7 @@ RULE = ("annotations (valid and with one tree-level fault) from the C01 generato
         "generated clones of a library. non-trivial = annotation with >= 2 tags; distinct = distinct (group, member, text)")
 ASSUMPTIONS = ["relational monitor paired with the XML oracle for containment",
                "prefixing is done on the text of each tag, definitions are prefixed the same way"]
-MIN_MONITOR_EVALS = {"prefixed-equals-alone": 1500, "bad-prefix-is-error": 200, "standard-tag-in-library": 4000,
+MIN_MONITOR_EVALS = {"load-order-independent": 30, "prefixed-equals-alone": 1500, "bad-prefix-is-error": 200, "standard-tag-in-library": 4000,
                      "refusal": 8, "acceptance": 3}
 GROUPS = [
     (["8.3.0", "sc:score_2.0.0"], [("", "8.3.0"), ("sc:", "score_2.0.0")]),
@@ -45,6 +45,10 @@ def shards(tier, seed):
         for ns, member in members:
             for i in range(0, per, 110):
                 out.append(dict(kind="relational", group=gi, ns=ns, member=member, n=min(110, per - i), stream=i))
+    for gi, (versions, members) in enumerate(GROUPS):
+        for ns, member in members:
+            if ns:
+                out.append(dict(kind="history", group=gi, ns=ns, member=member, n=12 if tier == "quick" else 60))
     for v in env.PARTNERED:
         out.append(dict(kind="containment", version=v))
     out.append(dict(kind="refusals", clones=4 if tier == "quick" else 40))
@@ -252,7 +256,84 @@ def run_refusals(shard, rec):
     env.clear_hed_caches()
 
 
+def _history_child(order, versions, member, cases):
+    """In a forked child with empty in-memory schema caches: load and validate in the given order."""
+    import json as _json
+    r, w = os.pipe()
+    pid = os.fork()
+    if pid == 0:
+        out = {}
+        try:
+            os.close(r)
+            from hed.schema import load_schema_version
+            env.clear_hed_caches()
+            env._schemas.clear()
+            for which in order:
+                try:
+                    if which == "alone":
+                        sch = load_schema_version(member)
+                        out["alone"] = [err_codes(sch, c["defs"], c["text"]) for c in cases]
+                    else:
+                        sch = load_schema_version(versions)
+                        out["group"] = [err_codes(sch, c["pdefs"], c["ptext"]) for c in cases]
+                except Exception as ex:  # noqa
+                    out[which] = f"raises:{type(ex).__name__}"
+            with os.fdopen(w, "w") as f:
+                _json.dump(out, f)
+        finally:
+            os._exit(0)
+    os.close(w)
+    with os.fdopen(r) as f:
+        data = f.read()
+    os.waitpid(pid, 0)
+    return _json.loads(data) if data else {}
+
+
+def run_history(shard, rec):
+    """The verdict must not depend on which of the two schemas was loaded and used first in the process."""
+    rng = rec.rng
+    rng.seed(f"c13-h-{shard['group']}-{shard['ns']}-{rng.random()}")
+    versions, _ = GROUPS[shard["group"]]
+    o = schema_xml.load(shard["member"])
+    gen = annot.AnnotGen(o, rng)
+    gen.make_defs()
+    mk = lambda ns: ["(" + annot.render([annot.tag("Definition", "/" + d["name"] + ("/#" if d["takes_value"] else "")),       # noqa
+                                          annot.group(d["content"])], None, ns) + ")" for d in gen.defs]
+    defs, pdefs = mk(""), mk(shard["ns"])
+    cases = []
+    kinds = ["second-event-context", "second-event-context", "repeated-tag", "toplevel-nested", "requires-child", None, None]
+    for i in range(shard["n"]):
+        try:
+            items = gen.annotation(depth=3)
+            k = kinds[i % len(kinds)]
+            if k:
+                saved = set(gen.used)
+                m = annot.mutate(gen, items, k, rng)
+                gen.used = saved
+                if m is not None and m["items"] is not None:
+                    items = m["items"]
+        except RuntimeError:
+            continue
+        cases.append(dict(defs=defs, pdefs=pdefs, text=_with_ns(items, ""), ptext=_with_ns(items, shard["ns"])))
+    a = _history_child(["alone", "group"], versions, shard["member"], cases)
+    b = _history_child(["group", "alone"], versions, shard["member"], cases)
+    case0 = dict(kind="history", group=shard["group"], member=shard["member"], ns=shard["ns"])
+    for i, c in enumerate(cases):
+        rec.case(("history", shard["group"], shard["member"], c["text"]))
+        rec.mon("load-order-independent")
+        got = [x.get(k) if isinstance(x.get(k), str) else (x.get(k) or [None] * len(cases))[i]
+               for x in (a, b) for k in ("alone", "group")]
+        if len({repr(g) for g in got}) != 1:
+            rec.violation("the verdict depends on whether the prefixed group or the member alone was loaded and used first",
+                          dict(case0, text=c["text"], ptext=c["ptext"], defs=defs, pdefs=pdefs,
+                               alone_first=[got[0], got[1]], group_first=[got[2], got[3]]))
+            break
+
+
 def run_shard(shard, rec):
+    if shard["kind"] == "history":
+        run_history(shard, rec)
+        return
     if shard["kind"] == "relational":
         run_relational(shard, rec)
     elif shard["kind"] == "containment":
@@ -268,5 +349,12 @@ def replay(case, rec):
         check_bad_prefix(case, rec)
     elif case["kind"] == "containment":
         run_containment(dict(version=case["library"]), rec)
+    elif case["kind"] == "history":
+        versions, _ = GROUPS[case["group"]]
+        cs = [dict(defs=case["defs"], pdefs=case["pdefs"], text=case["text"], ptext=case["ptext"])]
+        a = _history_child(["alone", "group"], versions, case["member"], cs)
+        b = _history_child(["group", "alone"], versions, case["member"], cs)
+        if len({repr(x.get(k)) for x in (a, b) for k in ("alone", "group")}) != 1:
+            rec.violation("the verdict depends on whether the prefixed group or the member alone was loaded and used first", case)
     else:
         expect_load(rec, case["what"], case["versions"], case["should_load"])
